@@ -234,7 +234,7 @@ func (s *Source) Open(ctx context.Context) (err error) {
 		// persist connector in the next batch to store last active config
 		err := s.Instance.persister.Persist(ctx, s.Instance, func(err error) {
 			if err != nil {
-				s.errs <- err
+				s.reportAsyncError(err)
 			}
 		})
 		if err != nil {
@@ -581,7 +581,7 @@ func (s *Source) onPersistFlushed(seq uint64, err error) {
 		// ack the plugin for a write that did not durably land — the queued
 		// positions stay queued; there is nothing safe to send, and this
 		// connector is on its way down regardless.
-		s.errs <- err
+		s.reportAsyncError(err)
 		return
 	}
 
@@ -612,6 +612,20 @@ func (s *Source) onPersistFlushed(seq uint64, err error) {
 
 	if appended {
 		s.signalDelivery()
+	}
+}
+
+// reportAsyncError surfaces a failed state flush to the node via errs without
+// ever blocking. It runs in a goroutine Persister.WaitPendingWrites/Wait join,
+// and the node only reads errs while it runs: a blocking send for the FINAL
+// flush (Teardown, ConnectorStopped) would never be received and would hang
+// stop-and-wait and shutdown. errs has a buffer of one, so the first error is
+// latched for the node; any further one is logged (the node fails on the first).
+func (s *Source) reportAsyncError(err error) {
+	select {
+	case s.errs <- err:
+	default:
+		s.Instance.logger.Err(context.Background(), err).Msg("could not persist source connector (an earlier error is still pending delivery to the node)")
 	}
 }
 
